@@ -254,7 +254,7 @@ func (ex *Exec) typed(st *State, v Val) {
 		case "len":
 			// len <= cap, arr == 0 => cap == 0
 			arr, capT := v.L[i-2], v.L[i+1]
-			ex.fact(And(Ge(x, Int(0)), Le(x, capT), Le(capT, pow2(48)), Implies(Eq(arr, Int(0)), Eq(capT, Int(0)))))
+			ex.fact(And(Ge(x, Int(0)), Le(x, capT), Le(capT, Int(maxElems(l.T))), Implies(Eq(arr, Int(0)), Eq(capT, Int(0)))))
 		case "tag":
 			ex.fact(And(Ge(x, Int(0)), Implies(Eq(x, Int(0)), Eq(v.L[i+1], Int(0)))))
 		case "pl":
@@ -880,4 +880,20 @@ func (fr *Frame) phiValue(phi *ssa.Phi, b *ssa.BasicBlock, back bool, in *State)
 		res.L = append(res.L, ex.vc.define(name, r))
 	}
 	return res
+}
+
+
+var goSizes = types.SizesFor("gc", "amd64")
+
+// maxElems: the largest element count a slice of this type can have
+// (runtime maxAlloc = 2^48 bytes on amd64).
+func maxElems(sliceT types.Type) int64 {
+	sz := int64(1)
+	if sl, ok := under(sliceT).(*types.Slice); ok {
+		sz = goSizes.Sizeof(sl.Elem())
+	}
+	if sz <= 0 {
+		sz = 1
+	}
+	return (int64(1) << 48) / sz
 }
